@@ -839,7 +839,8 @@ func c01IgnoreSet(r *an.Run) {
 	for typ := range ignored {
 		r.Check(allowed[typ], short(f)+"|ignored|"+typ, f.Pos(), "values of type %s are ignored by the matcher (always match); only comments and Ident.Obj may be", typ)
 	}
-	r.Check(cases["go/token.Pos"] == "call:(*internal/engine.matcherCompiler).compilePosMatcher", short(f)+"|pos", f.Pos(),
+	posArm := posArmFunc(r, "matcher")
+	r.Check(posArm != nil && cases["go/token.Pos"] == "call:"+short(posArm), short(f)+"|pos", f.Pos(),
 		"token.Pos fields are compiled to a PosMatcher (got %q)", cases["go/token.Pos"])
 	r.Check(deflt == "call:(*internal/engine.matcherCompiler).compileGeneric", short(f)+"|default", f.Pos(), "all other types go to the generic structural matcher (got %q)", deflt)
 	r.Extra["C01_matcher_dispatch"] = cases
